@@ -1224,3 +1224,65 @@ func (g *Graph) isCondition(n ast.Node) bool {
 	}
 	return false
 }
+
+// reachingDef: for a local variable used at id, the right-hand side of the one assignment that dominates the use with no
+// other assignment of that variable possible in between; nil when there is no such single definition.
+func (f *Func) reachingDef(g *Graph, id *ast.Ident) ast.Expr {
+	v, isVar := f.ObjOf(id).(*types.Var)
+	if !isVar || v.IsField() || f.addressTaken(v) {
+		return nil
+	}
+	uv := g.VertexOf(id)
+	var ws []Write
+	for _, w := range Writes(f.Body, false) {
+		if f.ObjOf(w.LHS) == types.Object(v) {
+			if _, isID := ast.Unparen(w.LHS).(*ast.Ident); isID {
+				ws = append(ws, w)
+			}
+		}
+	}
+	for _, w := range ws {
+		if w.RHS == nil {
+			continue
+		}
+		wv := g.VertexOf(w.Stmt)
+		if wv == uv || !g.Dominates(wv, uv) {
+			continue
+		}
+		clean := true
+		fromW := g.ReachableFrom(wv)
+		for _, o := range ws {
+			if o.Stmt == w.Stmt {
+				continue
+			}
+			ov := g.VertexOf(o.Stmt)
+			if fromW[ov] && g.ReachableFrom(ov)[uv] {
+				clean = false
+			}
+		}
+		if clean {
+			return w.RHS
+		}
+	}
+	return nil
+}
+
+// atomSaysIsCall: the atom establishes req.IsCall() == want — through the method, or through what the method is
+// (`req.ID.value != nil` / ID.IsValid()), which is how it reads after a helper that used it was expanded in place.
+func atomSaysIsCall(f *Func, a Atom, isCall *types.Func, want bool) bool {
+	if ce, ok := ast.Unparen(a.E).(*ast.CallExpr); ok {
+		if f.IsCallTo(ce, isCall) {
+			return a.Val == want
+		}
+		if fn := f.Callee(ce); fn != nil && fn.Name() == "IsValid" {
+			if sel, isSel := ast.Unparen(ce.Fun).(*ast.SelectorExpr); isSel && strings.HasSuffix(f.FieldPath(sel.X), "Request.ID") {
+				return a.Val == want
+			}
+		}
+	}
+	if x, trueWhenNil, ok := NilTest(a.E); ok && strings.HasSuffix(f.FieldPath(x), "Request.ID.value") {
+		isNil := trueWhenNil == a.Val
+		return isNil != want
+	}
+	return false
+}
